@@ -107,11 +107,11 @@ def trees(depth, rng, cql_only):
     sub = trees(depth - 1, rng, cql_only)
     pick = lambda n: rng.sample(sub, min(n, len(sub)))
     out = list(trees(0, rng, cql_only))
-    for x in pick(10):
+    for x in pick(40):
         out += [('list', x), ('set', x), ('frozen', ('list', x)), ('frozen', ('frozen', ('set', x))), ('vector', x, rng.choice([1, 3]))]
         if not cql_only:
             out += [('reversed', x)]
-    for x, y in zip(pick(8), pick(8)):
+    for x, y in zip(pick(30), pick(30)):
         out += [('map', x, y), ('frozen', ('map', x, y)), ('tuple', [x, y]), ('tuple', [x]), ('tuple', [x, y, x])]
         if not cql_only:
             out += [('udt', 'ks1', 'address', [('street', x), ('zip_code', y)]), ('udt', 'ks1', 'Tag', [('v', x)])]
@@ -121,12 +121,13 @@ def trees(depth, rng, cql_only):
 def type_trees(tier, seed):
     from cassandra import cqltypes as T
     rng = random.Random(seed)
-    fails, n = [], 0
+    fails, n, seen = [], 0, set()
     depth = 3 if tier == 'quick' else 4
     # CQL strings: parse / print identity up to whitespace, strip_frozen
     for t in trees(depth, rng, True):
         s = cql(t)
         n += 1
+        seen.add(s)
         for variant in (s, s.replace(', ', ','), s.replace('<', '< ').replace(', ', ' ,  ')):
             try:
                 back = T.python_to_cqltype(T.cqltype_to_python(variant))
@@ -143,6 +144,7 @@ def type_trees(tier, seed):
     for t in trees(depth, rng, False):
         d = cass(t)
         n += 1
+        seen.add(d)
         try:
             cls = T.lookup_casstype(d)
             name = cls.cql_parameterized_type()
@@ -164,8 +166,8 @@ def type_trees(tier, seed):
             fails.append('%r: %r' % (d, e))
         if len(fails) > 3:
             break
-    return {'name': 'type-trees', 'kind': 'bounded', 'cases': n, 'evaluations': n, 'distinct_nontrivial': n,
-            'rule': 'CQL string -> python list -> CQL string is the identity up to whitespace; strip_frozen removes exactly the frozen wrappers; marshal descriptor -> class -> descriptor -> class keeps CQL name and codec',
+    return {'name': 'type-trees', 'kind': 'bounded', 'cases': n, 'evaluations': n, 'distinct_nontrivial': len([x for x in seen if '<' in x or '(' in x]),
+            'samples': sorted(seen, key=len)[-3:], 'rule': 'distinct = distinct type strings; non-trivial = parameterized (not a bare scalar). CQL string -> python list -> CQL string is the identity up to whitespace; strip_frozen removes exactly the frozen wrappers; marshal descriptor -> class -> descriptor -> class keeps CQL name and codec',
             'bound': '%d type trees of depth <= %d (random sub-tree sampling at each level) over 8 scalars and list/set/map/tuple/frozen/vector/udt/reversed, three whitespace variants each' % (n, depth),
             'violations': fails[:3]}
 
